@@ -375,6 +375,64 @@ pub mod proofs {
         core::mem::forget((d, h));
     }
 
+    /// C09 (a) through the real front-end object: the consumer is
+    /// `SignalsInfo::wait()` itself (not the replicated composition), a complete
+    /// delivery lands anywhere inside it; then a later delivery.
+    #[kani::proof]
+    #[kani::stub(core::fmt::write, crate::common::no_fmt_write)]
+    #[kani::unwind(6)]
+    pub fn c09_nest_delivery_inside_wait_frontend() {
+        reg::init_globals();
+        unsafe {
+            X::base_var = vshim::ST::nvars_all;
+            X::arcs_before = libc::vshim::sync::arcs_created();
+        }
+        let s = ok(Signals::new(&[SA]));
+        assert!(s.is_some(), "C09: constructing Signals failed");
+        let mut s = s.unwrap();
+        let h = s.handle();
+        unsafe {
+            X::slot_var = X::base_var + SA as usize;
+            X::closed_var = X::base_var + be::MAXSIG;
+            kani::cover!(be::closed_var(&h) == X::closed_var, "the shim word of the closed flag was located");
+            X::handle = &h;
+            X::action = libc::vshim::sync::action_by_arc_id(X::arcs_before);
+            X::direct = true;
+            assert!(X::action.is_some(), "C09: add_signal did not register an action for the watched signal");
+            vshim::HOOKS.block = block_hook_nest;
+            X::by_count = true;
+        }
+        let spurious: bool = kani::any();
+        if spurious {
+            unsafe { K::fds[PAIR_WRITE as usize].fill = 1 };
+        } else {
+            full_delivery();
+        }
+        unsafe { vshim::HOOKS.interrupt = interrupt_with_delivery };
+        vshim::set_mode_nest(1, 1, 0);
+        for sig in s.wait() {
+            note(sig);
+        }
+        vshim::set_mode_seq();
+        let first = unsafe { I::yielded_sa };
+        if unreported() {
+            for sig in s.wait() {
+                note(sig);
+            }
+        }
+        assert!(!unreported(), "C09: a delivered signal was not obtained by a consumer that keeps waiting and draining");
+        full_delivery();
+        for sig in s.wait() {
+            note(sig);
+        }
+        assert!(!unreported(), "C09: a later delivery was not obtained by a consumer that keeps waiting and draining");
+        assert!(unsafe { I::yielded_other } == 0, "C10: the iterator yielded a signal it was not asked to watch");
+        assert!(unsafe { I::yielded_sa } <= unsafe { X::deliveries_done }, "C10: the iterator has yielded a signal more often than it was delivered");
+        kani::cover!(spurious && vshim::interrupts_taken() == 1 && first == 0, "delivery landed after the scan had passed its slot");
+        kani::cover!(!spurious && unsafe { X::deliveries_done } == 3, "three deliveries, one nested");
+        core::mem::forget((s, h));
+    }
+
     /// C09 (b): the consumer (another thread) runs a complete iteration in the
     /// middle of the delivering action; afterwards it must not sleep with the
     /// signal unreported.
